@@ -38,7 +38,10 @@ SCHEMES = [
 # application identifiers, ECI escapes, structured append): an encoder that starts to "understand" one of them must still reproduce every content
 MAGIC = [b"[)>\x1e05\x1d", b"[)>\x1e06\x1d", b"\x1e\x04", b"[)>\x1e05\x1dABC\x1e\x04", b"[)>\x1e06\x1d12345\x1e\x04", b"[)>\x1e05\x1dno trailer", b"[)>\x1e07\x1dX\x1e\x04",
          b"]d2", b"]Q3", b"]C1", b"]z3", b"\x1d", b"\x1c\x1d\x1e\x1f", b"(01)09501101530003(17)250101", b"010950110153000317250101",
-         b"\\000026", b"\\000003", b"\\\\", b"\x1b", b"\xef\xbb\xbf", b"\xff\xfe", b"\x00", b"\x00\x00\x00"]
+         b"\\000026", b"\\000003", b"\\\\", b"\x1b", b"\xef\xbb\xbf", b"\xff\xfe", b"\x00", b"\x00\x00\x00",
+         # characters that Unicode classifies like ASCII ones (unicode.IsDigit / IsUpper / IsSpace ...) but that are not
+         "\u0661\u0662\u0663".encode(), "abcd\u0661".encode(), "12345\u0663\u0664".encode(), "\uff11\uff12\uff13".encode(), "A\uff21B".encode(),
+         "x\u00b2 \u00bd".encode(), "\u00a0\u2003 ".encode(), "\u0391\u0392".encode(), "\u0967\u0968\u0969abcd".encode()]
 
 
 def magic_contents(rng, n_plain=3):
